@@ -299,4 +299,59 @@ theorem blockLen_digits_then_other (ds : List Nat) (hds : allDig ds) (c : Nat) (
   rw [blockLen_digits_then ds hds, blockLen.eq_def]
   simp [hc, he]
 
+/-! ### the NUMBER token `lexWord` pushes -/
+
+/-- everything but `pos` and `width` is the same -/
+def SameBut (l l' : L) : Prop :=
+  l'.inp = l.inp ∧ l'.line = l.line ∧ l'.lastnl = l.lastnl ∧ l'.skippedNl = l.skippedNl ∧ l'.start = l.start ∧
+    l'.toks = l.toks
+
+theorem SameBut.refl (l : L) : SameBut l l := ⟨rfl, rfl, rfl, rfl, rfl, rfl⟩
+
+theorem SameBut.trans {a b c : L} (h1 : SameBut a b) (h2 : SameBut b c) : SameBut a c :=
+  ⟨h2.1.trans h1.1, h2.2.1.trans h1.2.1, h2.2.2.1.trans h1.2.2.1, h2.2.2.2.1.trans h1.2.2.2.1,
+    h2.2.2.2.2.1.trans h1.2.2.2.2.1, h2.2.2.2.2.2.trans h1.2.2.2.2.2⟩
+
+theorem sameBut_next (l : L) : SameBut l (l.next).1 := by
+  unfold L.next; split <;> exact ⟨rfl, rfl, rfl, rfl, rfl, rfl⟩
+
+theorem sameBut_backup (l : L) (w : Nat) : SameBut l (l.backup w) := ⟨rfl, rfl, rfl, rfl, rfl, rfl⟩
+
+theorem sameBut_loop (fuel : Nat) : ∀ (l : L) (r : Option Nat), SameBut l (lexNumberBlock.loop fuel l r).1 := by
+  induction fuel with
+  | zero => intro l r; exact SameBut.refl l
+  | succ n ih =>
+    intro l r
+    simp only [lexNumberBlock.loop]
+    repeat' split
+    all_goals first
+      | exact SameBut.refl l
+      | exact (sameBut_next l).trans (ih _ _)
+      | exact ((sameBut_next l).trans ((sameBut_next _).trans (sameBut_next _))).trans (ih _ _)
+
+theorem sameBut_numberBlock (l : L) : SameBut l (lexNumberBlock l) := by
+  simp only [lexNumberBlock]
+  split
+  · exact ((sameBut_next l).trans (sameBut_loop _ _ _)).trans (sameBut_backup _ _)
+  · exact (sameBut_next l).trans (sameBut_loop _ _ _)
+
+theorem slice_eq_take (l : L) (n : Nat) : l.slice l.pos (l.pos + n) = (rem l).take n := by
+  simp [L.slice, rem, Array.toList_extract, List.extract_eq_drop_take]
+
+/-- `lexWord`, started at the first byte of ASCII text whose block passes the number test, pushes
+    exactly one token: the NUMBER whose text is (the lower-cased) block — the longest prefix of the
+    remaining input of the form   (digit | `.` | `e` `+` digit)* -/
+theorem lexWord_number (l : L) (hs : l.start = l.pos) (hasc : ∀ x ∈ rem l, x < 128)
+    (hcand : numberCandidate (lowerGo ((rem l).take (blockLen (rem l)))) = true) :
+    (lexWord l).1.toks =
+      l.toks.push (Tok.mk tNUMBER l.start (lowerGo ((rem l).take (blockLen (rem l)))) false false
+        l.skippedNl l.stamp.1 l.stamp.2) := by
+  obtain ⟨h1, h2, h3, h4, h5, h6⟩ := sameBut_numberBlock l
+  have hpos := numberBlock_ascii l hasc
+  have hslice : (lexNumberBlock l).slice l.start (lexNumberBlock l).pos =
+      (rem l).take (blockLen (rem l)) := by
+    rw [hs, hpos, ← slice_eq_take l]
+    simp [L.slice, h1]
+  simp only [lexWord, L.emit, L.stamp, h2, h3, h4, h5, h6, hslice, hcand, if_true]
+
 end Ecal.Lex
